@@ -200,9 +200,15 @@ func (h *H) checkGgsvp3(id string, idx int, sh gsvdCase) {
 					cs.sigClause = save
 					ub, vb, qb = mk("u", jobU == lapack.GSVDU, m), mk("v", jobV == lapack.GSVDV, p), mk("q", jobQ == lapack.GSVDQ, n)
 				}
+				if dmin, okd := docLworkMin("dggsvp3.go", "Dggsvp3", map[string]int{"m": m, "n": n, "p": p}); okd {
+					cs.rotMin = dmin
+				} else {
+					cs.rotMin = max(3*n+1, m, p)
+				}
 				lwork, ok := cs.query("Dggsvp3", 1, m == 0 || p == 0 || n == 0, func(w []float64) {
 					h.impl.Dggsvp3(jobU, jobV, jobQ, m, p, n, ab.s, ab.ld, bb.s, bb.ld, tola, tolb, ub.s, ub.ld, vb.s, vb.ld, qb.s, qb.ld, iwork, tau, w, -1)
 				}, ab.s, bb.s, ub.s, vb.s, qb.s)
+				cs.rotMin = 0
 				if !ok {
 					continue
 				}
